@@ -67,6 +67,32 @@ def source_of(fnode, expr, prog=None, func=None, depth=0, out=None):
                     r = _single_return(n)
                     if r is not None:
                         return source_of(n, r, prog, func, depth + 1, out)
+        # a filtering generator over its parameter: `def keep(self, xs): for x in xs: if ok(x): yield x`  called as self.keep(SRC)
+        if prog is not None and func is not None and isinstance(expr.func, ast.Attribute) and dotted(expr.func.value) in ("self", "cls") \
+                and func.cls is not None and len(expr.args) == 1 and not expr.keywords:
+            g = prog.lookup(func.cls, expr.func.attr)
+            if g is not None and g.module.name.startswith("pptx"):
+                ps = [a.arg for a in g.node.args.args if a.arg not in ("self", "cls")]
+                loops = [n for n in ast.walk(g.node) if isinstance(n, ast.For) and isinstance(n.iter, ast.Name) and ps and n.iter.id == ps[0]
+                         and isinstance(n.target, ast.Name)]
+                ys = [y for y in ast.walk(g.node) if isinstance(y, ast.Yield)]
+                if len(loops) == 1 and ys and all(isinstance(y.value, ast.Name) and y.value.id == loops[0].target.id for y in ys) \
+                        and all(any(y is z for z in ast.walk(loops[0])) for y in ys):
+                    for t in [x.test for x in ast.walk(loops[0]) if isinstance(x, ast.If)]:
+                        out["filtered"].append(ast.unparse(t))
+                    # what is known about a yielded element (facts on every path to the yield, in the helper's normalised terms)
+                    from . import paths as P_
+
+                    gal = P_.aliases(g.node)
+                    per_path = []
+                    for pth in P_.enum_paths(loops[0].body):
+                        for i_, e_ in enumerate(pth.events):
+                            if e_[0] == "stmt" and any(isinstance(z, ast.Yield) for z in ast.walk(e_[1])):
+                                per_path.append(set(P_.facts(pth, i_, gal)))
+                    common = set.intersection(*per_path) if per_path else set()
+                    out.setdefault("gen_facts", []).extend((loops[0].target.id, a_) for a_ in sorted(common, key=repr))
+                    out["via"].append(ast.unparse(expr))
+                    return source_of(fnode, expr.args[0], prog, func, depth + 1, out)
         if prog is not None and func is not None and isinstance(expr.func, ast.Attribute) and dotted(expr.func.value) in ("self", "cls") \
                 and func.cls is not None and not expr.args:
             g = prog.lookup(func.cls, expr.func.attr)
